@@ -706,6 +706,8 @@ def sub(a, b):
         return neg(b)
     if b[0] == "neg":
         return add(a, b[2])
+    if b[0] == "sub" and b[2] is a:
+        return b[3]
     return mk("sub", w, a, b)
 
 
@@ -1081,6 +1083,17 @@ def icmp(pred, a, b):
     if a[0] == "rep" and b[0] == "rep" and pred in ("eq", "ne"):
         x = xor(a[2], b[2])
         return not_(x) if pred == "eq" else x
+    if b[0] == "const" and pred in ("ugt", "uge", "ult", "ule") and a[0] in ("sub", "select"):
+        ub = ubound(a)
+        if ub is not None:
+            if pred == "ugt" and ub <= b[2]:
+                return const(1, 0)
+            if pred == "uge" and ub < b[2]:
+                return const(1, 0)
+            if pred == "ule" and ub <= b[2]:
+                return const(1, 1)
+            if pred == "ult" and ub < b[2]:
+                return const(1, 1)
     if a[0] == "concat" and is_zero(a[-1]) and b[0] == "const":
         lw = w - a[-1][1]
         c = b[2]
@@ -1424,6 +1437,37 @@ def opc(name, w, a, b):
     if a[0] == "const" and b[0] == "const" and not name.startswith("f"):
         return _fold(mk(name, w, a, b))
     return mk(name, w, a, b)
+
+
+def ubound(t):
+    """an upper bound of the unsigned value of t (None: no bound better than 2^w-1)"""
+    w = t[1]
+    if t[0] == "const":
+        return t[2]
+    if t[0] == "concat":
+        # zero high part
+        hi = 0
+        pos = 0
+        tot = 0
+        for p in t[2:]:
+            b = ubound(p)
+            if b is None:
+                b = mask(p[1])
+            tot += b << pos
+            pos += p[1]
+        return tot
+    if t[0] == "sub" and t[2][0] == "concat" and len(t[2]) == 4 and is_zero(t[2][2]):
+        # align_up(x) - x  with align_up(x) = (x + 2^k - 1) & -2^k
+        k = t[2][2][1]
+        hi = t[2][3]
+        x = t[3]
+        if hi is slice_(add(x, const(w, (1 << k) - 1)), k, w - k):
+            return (1 << k) - 1
+    if t[0] == "select":
+        a, b = ubound(t[3]), ubound(t[4])
+        if a is not None and b is not None:
+            return max(a, b)
+    return None
 
 
 def nonzero(t):
